@@ -439,4 +439,89 @@ def identifyFamily (rtol atol : K) (p : CellParams K) : Option Family :=
 
 end family
 
+/-! ### the `Box` OBJECT (Box.py:26-61, 245-280, 465-680, 725-775, 1018-1058): state, setters, and the
+    Box-method entry points `Box.vector_crystal_to_cartesian`, `Box.plane_crystal_to_cartesian`,
+    `Box.identifyfamily`, `Box.is<family>`, `Box.reciprocal_vects`, `Box.position_relative_to_cartesian` -/
+
+/-- everything a `Box` object holds: `vects`, `origin`, the memoised `reciprocal_vects` (the only cached
+    quantity of the real class; `None` = not computed), and the six cell parameters measured from the
+    CURRENT `vects` (`Box.a … gamma` are sqrt/arccos of `vects`: external functions, so every setter of
+    `vects` is given the new measured values).  There is no other state: nothing is remembered from
+    earlier queries. -/
+structure BoxObj (K : Type) where
+  box : Box K
+  par : CellParams K
+  recipCache : Option (M3 K)
+
+namespace BoxObj
+variable {K : Type}
+
+/-- `Box(vects=V, origin=org)` (and every other constructor form once it has computed `V`, `org`). -/
+def new (V : M3 K) (org : V3 K) (p : CellParams K) : BoxObj K := ⟨⟨V, org⟩, p, none⟩
+
+/-- the `vects` setter: `origin` kept, `__reciprocal_vects` reset. -/
+def setVects (o : BoxObj K) (V : M3 K) (p : CellParams K) : BoxObj K := ⟨⟨V, o.box.origin⟩, p, none⟩
+
+/-- the `origin` setter: cell and cache kept. -/
+def setOrigin (o : BoxObj K) (org : V3 K) : BoxObj K := ⟨⟨o.box.vects, org⟩, o.par, o.recipCache⟩
+
+/-- `Box.set(vects=…, origin=…)`, `set_vectors`, `set_abc`, `set_lengths`, `set_hi_los`, `Box.model(model)`,
+    `System.box_set`: all end in `self.vects = V; self.origin = org`. -/
+def set (o : BoxObj K) (V : M3 K) (org : V3 K) (p : CellParams K) : BoxObj K := (o.setVects V p).setOrigin org
+
+/-- the `reciprocal_vects` property: computed from the current `vects` when the cache is empty, then kept. -/
+def reciprocalVects [Add K] [Sub K] [Mul K] [Div K] (o : BoxObj K) : BoxObj K × M3 K :=
+  match o.recipCache with
+  | some r => (o, r)
+  | none => (⟨o.box, o.par, some o.box.recip⟩, o.box.recip)
+
+/-- numpy/atomman default tolerances `rtol=1e-05`, `atol=1e-08` of `Box.ishexagonal()` as called by miller.py. -/
+@[inline] def defaultRtol [NatCast K] [Div K] : K := ((1 : Nat) : K) / ((100000 : Nat) : K)
+@[inline] def defaultAtol [NatCast K] [Div K] : K := ((1 : Nat) : K) / ((100000000 : Nat) : K)
+
+section queries
+variable [Zero K] [Add K] [Sub K] [Mul K] [Div K] [Neg K] [NatCast K] [LT K] [DecidableLT K] [LE K] [DecidableLE K]
+
+/-- `box.ishexagonal()` with default tolerances (the test miller.py applies to four-index input). -/
+def isHex (o : BoxObj K) : Bool := isHexagonal defaultRtol defaultAtol o.par
+
+/-- `Box.identifyfamily(rtol, atol)`: a function of the CURRENT cell only. -/
+def identifyFamily (rtol atol : K) (o : BoxObj K) : Option Family := C16.identifyFamily rtol atol o.par
+
+/-- `Box.vector_crystal_to_cartesian(indices)`: `miller.vector_crystal_to_cartesian(indices, self)`;
+    the origin takes no part. -/
+def vectorCrystalToCartesian (atol : K) (o : BoxObj K) (idx : List K) : Except Err (V3 K) :=
+  C16.vectorCrystalToCartesian atol o.isHex o.box.vects idx
+
+/-- `Box.plane_crystal_to_cartesian(indices)` before normalisation. -/
+def planeCrystalToCartesianUnnorm [IntCast K] (atol : K) (o : BoxObj K) (idx : List Int) : Except Err (V3 K) :=
+  C16.planeCrystalToCartesianUnnorm atol o.isHex o.box.vects idx
+
+/-- `Box.position_relative_to_cartesian` (the only one of these that sees the origin). -/
+def relToCart (o : BoxObj K) (s : V3 K) : V3 K := o.box.relToCart s
+
+end queries
+
+/-- the state-changing operations on one object. -/
+inductive Op (K : Type) where
+  | setVects (V : M3 K) (p : CellParams K)
+  | setOrigin (org : V3 K)
+  | set (V : M3 K) (org : V3 K) (p : CellParams K)
+  | readRecip
+
+def step [Add K] [Sub K] [Mul K] [Div K] (o : BoxObj K) : Op K → BoxObj K
+  | .setVects V p => o.setVects V p
+  | .setOrigin org => o.setOrigin org
+  | .set V org p => o.set V org p
+  | .readRecip => o.reciprocalVects.1
+
+/-- a history of operations applied to one object. -/
+def run [Add K] [Sub K] [Mul K] [Div K] (o : BoxObj K) (ops : List (Op K)) : BoxObj K := ops.foldl step o
+
+/-- the cache is empty or holds the reciprocal vectors of the current cell. -/
+def CacheValid [Add K] [Sub K] [Mul K] [Div K] (o : BoxObj K) : Prop :=
+  o.recipCache = none ∨ o.recipCache = some o.box.recip
+
+end BoxObj
+
 end Atomman.C16
